@@ -66,6 +66,11 @@ def classical_ops(ty, n, idx):
         # elements lent to a GENERICALLY borrowing callee (mem_swap, user generic) must receive what it wrote
         ops.append(("mem-swap-elements", [f"mem_swap(xs[{a}], xs[{b}])"]))
         ops.append(("generic-swap-elements", [f"gswap(xs[{a}], xs[{b}])"]))
+    if ty != "int":
+        # the two COMPONENTS of one element lent in the same call: the swap must happen (or the double lend must panic);
+        # what must not happen is that one of the two write-backs is silently lost
+        for a in idx[:1]:
+            ops.append(("swap-components-of-element", [f"mem_swap(xs[{a}][0], xs[{a}][1])"]))
     for a in idx[:1]:
         ops.append(("mem-swap-element-with-local", [f"t = {elem(ty, 77)}", f"mem_swap(xs[{a}], t)", f'result("t", {rd(ty, "t")})']))
     ops.append(("iterate", ["for e in xs.copy():", f'    result("e", {rd(ty, "e")})']))
@@ -273,6 +278,7 @@ def _norm(events):
 
 import re as _re
 
+_SWAPC = _re.compile(r"^(\s*)mem_swap\((\w+)\[([^\]]+)\]\[0\], \2\[\3\]\[1\]\)$", _re.M)
 _SWAP2 = _re.compile(r"^(\s*)(?:mem_swap|gswap)\((\w+(?:\[[^\]]+\])+), (\w+(?:\[[^\]]+\])+)\)$", _re.M)
 _SWAP1 = _re.compile(r"^(\s*)mem_swap\((\w+(?:\[[^\]]+\])+), (\w+)\)$", _re.M)
 
@@ -297,6 +303,7 @@ def py_variant(src: str) -> str:
     into the reads and write-backs the statement implies: both places are read (left to right), then both
     are written (left to right) with the exchanged values."""
     src = _LEND2.sub(_lend2_sub, src)
+    src = _SWAPC.sub(lambda m: f"{m.group(1)}_sw_e = {m.group(2)}[{m.group(3)}]; {m.group(2)}[{m.group(3)}] = (_sw_e[1], _sw_e[0])", src)
     src = _SWAP2.sub(lambda m: f"{m.group(1)}_sw_a = {m.group(2)}; _sw_b = {m.group(3)}; {m.group(2)} = _sw_b; {m.group(3)} = _sw_a", src)
     src = _SWAP1.sub(lambda m: f"{m.group(1)}_sw_a = {m.group(2)}; {m.group(2)} = {m.group(3)}; {m.group(3)} = _sw_a", src)
     return src
@@ -354,6 +361,8 @@ def eval_program(item):
                 res["dis"] = {"cls": "effects-before-panic-differ", "input": list(args), "python": [st, want], "guppy": [r.status, got]}
                 return res
         else:
+            if "swap-components-of-element" in kinds and r.status == "panic" and got == want[:len(got)]:
+                continue        # refusing the double lend at run time is as good as performing it
             if r.status != "ok" or got != want:
                 res["dis"] = {"cls": "wrong-element", "input": list(args), "python": [st, want], "guppy": [r.status, r.panic, got]}
                 return res
